@@ -4,5 +4,7 @@ cd "$(dirname "$0")" || exit 2
 if [ ! -d .deps/z3 ]; then
   /venv/bin/python -m pip install --quiet --no-index --no-deps --find-links /opt/veriftools/wheels --target .deps z3-solver || exit 2
 fi
-PYTHONPATH="$PWD:$PWD/.deps" /venv/bin/python -c "import z3; print('z3', z3.get_version_string())" || exit 2
+export PYTHONPATH="$PWD:$PWD/.deps" PYTHONDONTWRITEBYTECODE=1
+/venv/bin/python -c "import z3; print('z3', z3.get_version_string())" || exit 2
+/venv/bin/python -m symx.selfcheck || exit 2
 mkdir -p out evidence
